@@ -109,7 +109,7 @@ theorem appendVertRow_good (s : SubR) (cols : List SubR) (h : s.Sane cfg) (hc : 
 
 /-! ## side-by-side rows -/
 
-theorem colSets_safe (ann : Tag) : ∀ (cols : List SubR), (∀ c ∈ cols, c.Sane cfg) → Safe (colSets ann cols) := by
+theorem colSets_safe (ann : Tag) : ∀ (cols : List SubR), (∀ c ∈ cols, c.Sane cfg) → Safe cfg.overflow (colSets ann cols) := by
   intro cols
   induction cols with
   | nil => intro _; simp only [colSets]; exact Safe.ok _
@@ -180,7 +180,7 @@ theorem colSets_text (ann : Tag) (hb : cfg.drawBorders = false) : ∀ (cols : Li
         · exact ih r (fun x hx => hc x (by simp [hx])) h2 st hst
 
 theorem collapseTop_safe : ∀ (sets : List (Nat × List RLine)) (prev : Option Border) (pos : Nat),
-    (prev.isSome = true ∨ ∀ st ∈ sets, ∀ l ∈ st.2, l.isText = true) → Safe (collapseTop prev pos sets) := by
+    (prev.isSome = true ∨ ∀ st ∈ sets, ∀ l ∈ st.2, l.isText = true) → Safe cfg.overflow (collapseTop prev pos sets) := by
   intro sets
   induction sets with
   | nil => intro prev pos _; simp only [collapseTop]; exact Safe.ok _
@@ -278,7 +278,7 @@ theorem appendColumns_good (s : SubR) (cols : List SubR) (h : s.Sane cfg) (hc : 
           rfl
         · right
           exact colSets_text (cfg := cfg) _ (by simpa using hd) cols sets hc h1
-      have hct := collapseTop_safe sets (s0.joinBars sets tot).1 0 hprev
+      have hct := collapseTop_safe (cfg := cfg) sets (s0.joinBars sets tot).1 0 hprev
       cases h3 : collapseTop (s0.joinBars sets tot).1 0 sets with
       | error e =>
         exact ⟨⟨by intro e' he'; simp [andThen_error_eq] at he'; subst he'; exact hct e h3, by intro s' he'; simp [andThen_error_eq] at he'⟩,
@@ -469,7 +469,7 @@ theorem sum_take_le (l : List Nat) (k : Nat) : (l.take k).sum ≤ l.sum := by
 
 theorem runCells_good {d : Deco} : ∀ (cells : List Op) (ws : List Nat) (vert : Bool) (ann : Tag) (links : List (List Ch)),
     CellsTot cfg d ws.length cells →
-    Safe (runCells SubR.widthMinus cfg d ws vert ann links cells) ∧
+    Safe cfg.overflow (runCells SubR.widthMinus cfg d ws vert ann links cells) ∧
     ∀ l2 subs, runCells SubR.widthMinus cfg d ws vert ann links cells = .ok (l2, subs) →
       (∀ c ∈ subs, c.Sane cfg) ∧ (vert = false → ws.sum = 0 → subs = []) := by
   intro cells
@@ -780,13 +780,17 @@ theorem compileCells_totT (cfg : Cfg) (d : Deco) (n : Nat) : (colno used : Nat) 
 end
 
 /-- **C01 for the render phase**: rendering any tree whose tables keep their cells inside their columns returns lines or
-    `TooNarrow` — never a panic, never a hang — for every configuration, decorator and width -/
+    `TooNarrow` — never a panic, never a hang — for every configuration, decorator and width; and `TooNarrow` only at
+    width 0 or when overflow is not allowed (C11: with `allow_width_overflow` every document renders at every width ≥ 1) -/
 theorem renderTree_total (cfg : Cfg) (d : Deco) (w : Nat) (tree : RNode) (h : tableOk tree = true) :
-    Safe (renderTree cfg d w tree) := by
+    Safe (cfg.overflow && decide (w ≠ 0)) (renderTree cfg d w tree) := by
   unfold renderTree
   split
-  · exact Safe.narrow
-  · have g := compile_totT cfg d tree h { cur := { width := w } } (sane_fresh _ _)
+  · rename_i hw; exact Safe.narrow (by simp [hw])
+  · rename_i hw
+    have hc : (cfg.overflow && decide (w ≠ 0)) = cfg.overflow := by simp [hw]
+    rw [hc]
+    have g := compile_totT cfg d tree h { cur := { width := w } } (sane_fresh _ _)
     apply Safe.andThen g.1
     intro t ht
     have st := g.2 t ht
